@@ -21,6 +21,7 @@ fn program(cls: &str) -> String {
         "kleene" => "stream S = A as a\n    -> all B as b\n    -> C as c\n    .partition_by(k)\n    .emit(ai: a.id, bi: b.id, ci: c.id)\n".into(),
         // three steps, the middle one with a predicate on the first capture
         "seq3" => "stream S = A as a\n    -> B where x >= a.x as b\n    -> C as c\n    .partition_by(k)\n    .emit(ai: a.id, bi: b.id, ci: c.id)\n".into(),
+        c if c.starts_with("api_") => format!("SaseEngine SEQ(A, B{{, C}}) partition_by k: {c}"),
         c => panic!("class {c}"),
     }
 }
@@ -49,6 +50,28 @@ fn run(rt: &tokio::runtime::Runtime, prog: &str, events: &[Event]) -> Result<Vec
     Ok(out)
 }
 
+/// Direct SaseEngine differential with a small run budget: every partition has the budget a stand-alone engine would have.
+fn api_run(maxruns: usize, strat: &str, three: bool, events: &[Event]) -> Result<Vec<String>, String> {
+    use varpulis_runtime::sase::{BackpressureStrategy, SaseEngine, SasePattern};
+    let ev = |t: &str, a: &str| SasePattern::Event { event_type: t.into(), predicate: None, alias: Some(a.into()) };
+    let mut pats = vec![ev("A", "a"), ev("B", "b")];
+    if three { pats.push(ev("C", "c")); }
+    let mut e = SaseEngine::new(SasePattern::Seq(pats)).with_max_runs(maxruns).with_partition_by("k".into())
+        .with_backpressure(match strat { "drop" => BackpressureStrategy::Drop, "oldest" => BackpressureStrategy::EvictOldest, _ => BackpressureStrategy::EvictLeastProgress });
+    let mut out = vec![];
+    for x in events {
+        match catch(|| e.process(x)) {
+            Ok(ms) => for m in ms {
+                let mut ids: Vec<String> = m.captured.iter().map(|(k, v)| format!("{k}={}", v.get("id").map(|i| i.to_string()).unwrap_or_default())).collect();
+                ids.sort();
+                out.push(ids.join(","));
+            },
+            Err(p) => return Err(format!("panic: {p}")),
+        }
+    }
+    Ok(out)
+}
+
 /// args: cases.ndjson report.json
 pub fn replay(args: &[String]) {
     let cases = read_cases(&args[0]);
@@ -68,13 +91,17 @@ pub fn replay(args: &[String]) {
             (k, ev)
         }).collect();
         let small = json!({"class": cls, "key_type": kt, "program": prog, "stream": c["stream"]});
-        let whole = run(&rt, &prog, &evs.iter().map(|(_, e)| e.clone()).collect::<Vec<_>>());
+        let api = cls.starts_with("api_");
+        // api classes: "api_<strategy>_<maxruns>_<2|3 steps>"
+        let apip: Vec<&str> = cls.split('_').collect();
+        let runit = |es: &[Event]| if api { api_run(apip[2].parse().unwrap(), apip[1], apip[3] == "3", es) } else { run(&rt, &prog, es) };
+        let whole = runit(&evs.iter().map(|(_, e)| e.clone()).collect::<Vec<_>>());
         let mut keys: Vec<u64> = evs.iter().map(|(k, _)| *k).collect();
         keys.sort(); keys.dedup();
         let mut parts: Result<Vec<String>, String> = Ok(vec![]);
         for k in &keys {
             let sub: Vec<Event> = evs.iter().filter(|(x, _)| x == k).map(|(_, e)| e.clone()).collect();
-            match (run(&rt, &prog, &sub), &mut parts) { (Ok(o), Ok(p)) => p.extend(o), (Err(e), p) => { *p = Err(e); } _ => {} }
+            match (runit(&sub), &mut parts) { (Ok(o), Ok(p)) => p.extend(o), (Err(e), p) => { *p = Err(e); } _ => {} }
         }
         rep.count(&format!("class_{cls}"), 1);
         match (whole, parts) {
